@@ -60,7 +60,8 @@ def check_sat(formulas, timeout_ms=20000, stats=None, strategies=("default", "nl
             s = _mk_solver(kind, per)
             for f in formulas:
                 s.add(f)
-            r = s.check()
+            from .explore import guarded_check
+            r = guarded_check(s, per)
         except z3.Z3Exception:
             continue
         if r == z3.unsat:
